@@ -133,6 +133,10 @@ class Session:
             e = fw.feed(self.p, part)
             if e is not None and esc is None:
                 esc = e
+            # what the endpoint holds of the frame in flight once it has failed the connection (judged by TRetained)
+            if getattr(self.p, "failedByMe", False):
+                fd = getattr(self.p, "frame_data", None)
+                self.retained = max(getattr(self, "retained", 0), sum(len(x) for x in (fd or [])))
         return esc
 
     def note_data(self, b0, plain):
@@ -533,6 +537,8 @@ def run_limits(inp, rng):
                                         s.payload(raw[hl:], plain, seg if n < 300 else 4096, dlen=dlen)
                                 if stop:
                                     break
+                            if hasattr(s.p, "frame_data"):          # (the frame buffer the anchor names; skipped if renamed)
+                                s.trace.append(dict(ev="retained", octets=int(getattr(s, "retained", 0))))
                             traces.append(s.trace)
                             runs.append(list(s.total))
                         fw.reset()
